@@ -122,8 +122,32 @@ def headline(err):
     return ""
 
 
-def compare(case, obs):
-    """spec prediction vs observation of the real binary; returns list of problem strings"""
+DRIFT_DROPPED = "prints of a failing input appear on standard output (spec: dropped with the input)"
+DRIFT_AFTER = "standard output continues with inputs after a failing one (spec: the run stops at the first failure)"
+
+
+def adopted_rule_alternatives(case):
+    """standard outputs that differ from the prediction ONLY in the rules the spec adopted from the code and that are
+    not part of C22: whether the prints of a failing input are shown, whether inputs after a failing one are executed.
+    Returns {tuple(lines): drift label}."""
+    if case["status"] == 0:
+        return {}
+    alts = {tuple(str(x) for x in case["stdout"]): None}
+    if case.get("dropped"):
+        for k in list(alts):
+            alts.setdefault(k + tuple(str(x) for x in case["dropped"]), DRIFT_DROPPED)
+    for r in case.get("after", []):
+        outs = [tuple(str(x) for x in r["out"]) + ((str(r["res"]),) if r["res"] != 0 else ())] if r["ok"] else \
+               [(), tuple(str(x) for x in r["out"])]
+        for k in list(alts):
+            for o in outs:
+                alts.setdefault(k + o, DRIFT_AFTER)
+    return {k: v for k, v in alts.items() if v}
+
+
+def compare(case, obs, drift=None):
+    """spec prediction vs observation of the real binary; returns list of problem strings (violations of C22).
+    Deviations that concern only the adopted rules are counted in `drift` and are not problems."""
     probs = []
     if obs["rc"] is None:
         return ["timeout"]
@@ -132,7 +156,11 @@ def compare(case, obs):
     exp = [str(x) for x in case["stdout"]]
     got = out_lines(obs["stdout"])
     if exp != got:
-        probs.append("stdout: impl %r spec %r" % (got[:12], exp))
+        label = adopted_rule_alternatives(case).get(tuple(got))
+        if label is None:
+            probs.append("stdout: impl %r spec %r" % (got[:12], exp))
+        elif drift is not None:
+            drift[label] = drift.get(label, 0) + 1
     if bool(obs["stderr"].strip()) != bool(case["stderr"]):
         probs.append("stderr: impl %s spec %s" % ("non-empty" if obs["stderr"].strip() else "empty",
                                                   "non-empty" if case["stderr"] else "empty"))
@@ -201,8 +229,25 @@ def self_tests(rep, cases, obs):
         "observed_rc_zero_on_failure": bool(compare(f, dict(fo, rc=0))),
         "observed_diagnostic_on_stdout": bool(compare(f, dict(fo, stdout=fo["stdout"] + fo["stderr"]))),
         "observed_stderr_emptied": bool(compare(f, dict(fo, stderr=""))),
-        "observed_extra_output_after_failure": bool(compare(f, dict(fo, stdout=fo["stdout"] + "1\n"))),
+        "observed_foreign_line_on_stdout": bool(compare(f, dict(fo, stdout=fo["stdout"] + "999\n"))),
+        "observed_result_missing": bool(compare(c, dict(o, stdout="\n".join(out_lines(o["stdout"])[1:])))),
     }
+    dr = [(c2, o2) for c2, o2 in zip(cases, obs) if c2.get("dropped") and not compare(c2, o2)]
+    if dr:
+        c2, o2 = dr[0]
+        dd = {}
+        shown = dict(o2, stdout=o2["stdout"] + "".join("%s\n" % x for x in c2["dropped"]))
+        res["adopted_rule_deviation_is_drift_not_violation"] = (compare(c2, shown, dd) == [] and DRIFT_DROPPED in dd)
+    fake = {"status": 1, "stdout": [1], "stderr": True, "dropped": [2], "after": [{"ok": True, "out": [3], "res": 4}]}
+    dd = {}
+    res["synthetic_adopted_rule_deviations_are_drift"] = (
+        compare(fake, {"rc": 1, "stdout": "1\n2\n", "stderr": "e"}, dd) == []
+        and compare(fake, {"rc": 1, "stdout": "1\n2\n3\n4\n", "stderr": "e"}, dd) == []
+        and compare(fake, {"rc": 1, "stdout": "1\n3\n4\n", "stderr": "e"}, dd) == [] and len(dd) == 2)
+    res["synthetic_other_stdout_deviation_is_violation"] = (
+        bool(compare(fake, {"rc": 1, "stdout": "1\n4\n", "stderr": "e"}, {}))
+        and bool(compare(fake, {"rc": 1, "stdout": "2\n", "stderr": "e"}, {}))
+        and bool(compare(fake, {"rc": 0, "stdout": "1\n2\n", "stderr": "e"}, {})))
     rep.notes["binding_self_tests"] = res
     if not all(res.values()):
         raise nv.ToolError("binding self-test failed: %s" % res)
@@ -250,7 +295,7 @@ def run_set(rep, runner_box, cli, d, alphabet, maxlen, variants, classes, drift,
         for c, o in zip(cases, obs):
             rep.add("evaluations", 1)
             replayed.add(json.dumps([c["file"], c["hasfile"], c["exprs"]]))
-            probs = compare(c, o)
+            probs = compare(c, o, drift)
             if probs:
                 rep.violation(viol("cli-mismatch", c, variant, o, probs, meta, alphabet), known_matcher)
             elif c["status"] != 0 and o["rc"] != 1:
@@ -263,7 +308,7 @@ def run_set(rep, runner_box, cli, d, alphabet, maxlen, variants, classes, drift,
         obs = runner.run_all([(c, "P", ("--pretty-print", mode)) for c in sub])
         for c, o in zip(sub, obs):
             rep.add("evaluations", 1)
-            probs = compare(c, o) if mode == "never" else [p for p in compare(c, o) if not p.startswith("stdout")]
+            probs = compare(c, o, drift) if mode == "never" else [p for p in compare(c, o) if not p.startswith("stdout")]
             if probs:
                 rep.violation(viol("cli-mismatch-pretty-print-" + mode, c, "P", o, probs, meta, alphabet), known_matcher)
     rep.add("invocations", len(replayed))
@@ -340,7 +385,9 @@ def run(tier, seed):
         "standard error compared for emptiness only; wording and source labels of diagnostics are not part of the property",
         "observed rules that the spec adopts from the code: a failing input writes nothing to standard output (prints of "
         "a failing input are dropped, they are buffered until the input succeeded); per input the prints come first, then "
-        "the value of the input's last expression statement; the run stops at the first failing input",
+        "the value of the input's last expression statement; the run stops at the first failing input. The first and the "
+        "last of these are not demanded by C22: a deviation of the binary that concerns only them (prints of a failing "
+        "input shown; output of inputs executed after a failing one) is reported as MODEL-DRIFT, not as a violation",
     ]
     if not rep.violations:
         shutil.rmtree(d, ignore_errors=True)
